@@ -7,7 +7,7 @@ git -C /repo worktree add -q --detach $wt HEAD || exit 2
 trap 'git -C /repo worktree remove --force '$wt' 2>/dev/null; rm -rf '$wt EXIT INT TERM
 git -C $wt apply "$patch" || { echo "patch does not apply"; exit 2; }
 for p in "$@"; do
-  out=$(cd /verif && VERIF_REPO=$wt VERIF_NCPU=${VERIF_NCPU:-8} bin/check "$p" "$tier" 2>&1); rc=$?
+  out=$(cd ${VERIF_DIR:-/verif} && VERIF_REPO=$wt VERIF_NCPU=${VERIF_NCPU:-8} bin/check "$p" "$tier" 2>&1); rc=$?
   echo "== $p $tier rc=$rc"
   echo "$out" | grep -E "VIOLATION|KNOWN-FINDING|BROKEN|what:" | head -6
 done
